@@ -86,6 +86,27 @@ def strip_casts(t):
     return t
 
 
+def cast_targets(t):
+  """dtype terms of the explicit casts wrapped around `t` (outermost first)."""
+  out = []
+  while True:
+    if t.op == 'call':
+      m = method_name(t)
+      if m in ('astype',):
+        if t.args[1]:
+          out.append(t.args[1][0])
+        t = t.args[0].args[0]
+        continue
+      n = ext_name(t)
+      if n in ('jax.numpy.asarray', 'jax.numpy.array', 'numpy.asarray', 'numpy.array') and t.args[1]:
+        dt = dict(t.args[2]).get('dtype')
+        if dt is not None:
+          out.append(dt)
+        t = t.args[1][0]
+        continue
+    return out
+
+
 def find(t, pred):
   return [x for x in walk(t) if pred(x)]
 
